@@ -262,7 +262,8 @@ func (f *Fam) checkReplica(w []string, fail func(string, string, string)) {
 		if f.rep.restarts > 0 {
 			f.extra["c01:states-compared-after-a-restart"]++
 		}
-		if x, y := f.app.Snap().String(), f.rep.app.Snap().String(); x != y {
+		sa, sb := f.app.Snap(), f.rep.app.Snap()
+		if x, y := sa.String()+" | "+sa.Foreign(), sb.String()+" | "+sb.Foreign(); x != y {
 			fail("replica-agrees", "C01:state-differs", fmt.Sprintf("after commit %d the committed states differ: primary %s / replica %s", f.height, clip(x), clip(y)))
 			f.rep = nil
 		}
